@@ -165,6 +165,20 @@ func TestVerifC01(t *testing.T) {
 		}
 	}
 	bases = append(mixed, abases...)
+	// every sample starts with the operator-forced failovers in async mode whose chosen node has an unapplied tail:
+	// the escape hatch of the catch-up wait is for AUTOMATIC failover only
+	{
+		var front []base
+		for _, ri := range []int{3, len(reqs) - 1} { // forced (--from --failover), forcedto (--to --failover)
+			for _, mi := range []int{2, 0} {
+				// the named / chosen host is behind the other replica (which has applied or only received more), or has
+				// an unapplied tail of its own
+				front = append(front, base{mi, 0, 1, ri, "frozen+async", 1}, base{mi, 0, 2, ri, "lazy+async", 1},
+					base{mi, 1, 3, ri, "frozen+async", 1}, base{mi, 2, 0, ri, "frozen+async", 1})
+			}
+		}
+		bases = append(front, bases...)
+	}
 	runs, nbase, npromo := 0, 0, 0
 	emit := func(res *vRunResult) {
 		for _, p := range res.promos {
